@@ -254,7 +254,7 @@ func VerifC03_TwoInputs() {
 	in, it := anyRuntime("input", 4)
 	ot, ott := anyRuntime("other", 4)
 	op := []ast.BinOp{ast.Add, ast.Mul, ast.Sub, ast.Eq, ast.Lt}[zzverif.Choice("op", 5)]
-	form := zzverif.Choice("form", 3)
+	form := zzverif.Choice("form", 5)
 	k := &ast.LiteralExpr{Value: ast.IntLiteral{Value: zzverif.Int64("k")}}
 	name := ""
 	mk := func() *ast.Route {
@@ -272,6 +272,23 @@ func VerifC03_TwoInputs() {
 				&ast.AssignStatement{Target: "p", Value: &ast.BinaryOpExpr{Op: op, Left: pvar("input"), Right: pvar("other")}},
 				&ast.AssignStatement{Target: "q", Value: &ast.BinaryOpExpr{Op: op, Left: pvar("input"), Right: pvar("other")}},
 				pret(&ast.ArrayExpr{Elements: []ast.Expr{pvar("p"), pvar("q")}})}
+		case 3:
+			name = "else-arm-reads-what-then-arm-assigns"
+			r.Body = []ast.Statement{
+				&ast.AssignStatement{Target: "x", Value: pvar("other")},
+				&ast.IfStatement{Condition: &ast.BinaryOpExpr{Op: ast.Lt, Left: pvar("input"), Right: k},
+					ThenBlock: []ast.Statement{&ast.ReassignStatement{Target: "x", Value: &ast.LiteralExpr{Value: ast.IntLiteral{Value: 980}}}, pret(pvar("x"))},
+					ElseBlock: []ast.Statement{pret(&ast.ArrayExpr{Elements: []ast.Expr{pvar("x")}})}},
+				pret(&ast.LiteralExpr{Value: ast.NullLiteral{}})}
+		case 4:
+			name = "then-arm-copy-else-arm-copy"
+			r.Body = []ast.Statement{
+				&ast.AssignStatement{Target: "x", Value: &ast.LiteralExpr{Value: ast.IntLiteral{Value: 1}}},
+				&ast.AssignStatement{Target: "y", Value: pvar("other")},
+				&ast.IfStatement{Condition: &ast.BinaryOpExpr{Op: ast.Lt, Left: pvar("input"), Right: k},
+					ThenBlock: []ast.Statement{&ast.ReassignStatement{Target: "x", Value: pvar("y")}},
+					ElseBlock: []ast.Statement{&ast.ReassignStatement{Target: "y", Value: pvar("x")}}},
+				pret(&ast.ArrayExpr{Elements: []ast.Expr{pvar("x"), pvar("y")}})}
 		default:
 			name = "loop-ends-by-assigning-constant"
 			r.Body = []ast.Statement{
